@@ -68,6 +68,7 @@ def gen_shape(rnd, leaves, depth):
 
 class H(Harness):
     ID = 'C11'
+    ANCHOR_FILES = ['epydemic/processsequence.py', 'epydemic/process.py', 'epydemic/networkdynamics.py', 'epydemic/compartmentedmodel.py', 'epydemic/monitor.py', 'epydemic/statistics.py']
     TIE_IMPORT = 'From EpyV Require Import Model.Kernel Model.Sequence Tie.C11.'
     CHECK_FN = 'EpyV.Tie.C11.check_case'
     QUICK_N = 320
